@@ -79,10 +79,13 @@ def _min_image_ortho(d, L):
     tot = 0.0
     shift = []
     for i in range(3):
-        R = int(math.ceil(abs(d[i]) / L[i])) + 1
-        R = max(R, 4)
+        # every image within 4 box lengths of the nearest one (a window around the estimate, so that the cost does not
+        # grow with the separation: code under test that corrupts its arguments can make separations astronomically large)
+        if not math.isfinite(d[i]) or abs(d[i]) / L[i] > 1e12:
+            return float("nan"), (0, 0, 0)
+        n0 = -int(math.floor(d[i] / L[i] + 0.5))
         best = None
-        for n in range(-R, R + 1):
+        for n in range(n0 - 4, n0 + 5):
             v = d[i] + n * L[i]
             if best is None or abs(v) < abs(best[0]):
                 best = (v, n)
@@ -133,6 +136,9 @@ def execute(trace, ctx):
                 ctx.probe("nonzero_image")
                 ctx.nontrivial = True
             outcome = "img" + "".join(str(int(np.sign(s)) + 1) for s in shift)
+            if not math.isfinite(want):
+                ctx.op(tag, "separation-out-of-range")
+                return got
             if abs(got - want) > tol:
                 ctx.violate(P, "min-image", f"box diag {L.tolist()} separation {d.tolist()}: distance_to={got!r}, "
                                             f"minimum over images={want!r}", key="ortho")
